@@ -9,7 +9,7 @@ from fontTools.ttLib import TTFont
 
 from . import corpus, tinyfont
 
-REQUIRED = ("head", "hhea", "hmtx", "maxp", "cmap")
+REQUIRED = ("head", "hhea", "hmtx", "maxp", "cmap", "name")
 
 FEA_VARMARK = """
 languagesystem DFLT dflt;
@@ -111,7 +111,7 @@ def in_domain(f):
     if "VARC" in f:
         return False, "VARC (instancing across VarComponent axes is documented as unsupported)"
     if not all(t in f for t in REQUIRED):
-        return False, "incomplete test fragment (no hhea/hmtx/cmap)"
+        return False, "incomplete test fragment (lacks one of hhea/hmtx/cmap/name)"
     if "glyf" in f and "gvar" not in f:
         return False, "glyf without gvar (gvar is required in a TrueType variable font)"
     if not ("glyf" in f or "CFF2" in f):
